@@ -12,6 +12,7 @@ import (
 	"go/token"
 	"go/types"
 	"sort"
+	"strconv"
 	"strings"
 
 	"golang.org/x/tools/go/ssa"
@@ -1171,6 +1172,125 @@ func ruleUpstreamForward(r *Run) {
 		}
 	}
 	r.AtLeast("R12b.end", "end-of-stream signals of the reader", nEnd, 1)
+	// R12b.skip: what kind of frame was read is decided on the decoded message, not on the
+	// bytes of the frame: a branch whose condition looks into the raw frame (bytes.Contains,
+	// a prefix test, a helper handed the bytes that does not decode them) and one side of which
+	// reads the next frame without the frame having gone through the decoder drops every frame
+	// whose payload happens to look like the pattern. The length of the frame is not its text.
+	nRead := 0
+	for _, fn := range withClosures(sub) {
+		for _, ins := range allInstrs(fn) {
+			rd, ok := ins.(*ssa.Call)
+			if !ok || !strings.Contains(calleeName(&rd.Call), "wsutil.Read") {
+				continue
+			}
+			loop := innermostLoop(rd.Block())
+			if loop == nil {
+				continue
+			}
+			nRead++
+			isDecode := func(i ssa.Instruction) bool {
+				ci, ok := i.(ssa.CallInstruction)
+				if !ok {
+					return false
+				}
+				if decodes(r, ci.Common(), 0) {
+					return true
+				}
+				return false
+			}
+			var raw func(v ssa.Value, depth int) bool
+			seenRaw := map[ssa.Value]bool{}
+			raw = func(v ssa.Value, depth int) bool {
+				if v == nil || seenRaw[v] || depth > 12 {
+					return false
+				}
+				seenRaw[v] = true
+				switch x := v.(type) {
+				case *ssa.Extract:
+					if x.Tuple == ssa.Value(rd) {
+						_, isBytes := x.Type().Underlying().(*types.Slice)
+						bt, isStr := x.Type().Underlying().(*types.Basic)
+						return isBytes || (isStr && bt.Info()&types.IsString != 0)
+					}
+					return raw(x.Tuple, depth+1)
+				case *ssa.Call:
+					if b, ok := x.Call.Value.(*ssa.Builtin); ok && (b.Name() == "len" || b.Name() == "cap") {
+						return false
+					}
+					if decodes(r, &x.Call, 0) {
+						return false
+					}
+					for _, a := range x.Call.Args {
+						if raw(a, depth+1) {
+							return true
+						}
+					}
+					return false
+				case *ssa.Const, *ssa.Global, *ssa.Parameter, *ssa.FreeVar, *ssa.Alloc, *ssa.Function:
+					return false
+				case ssa.Instruction:
+					for _, op := range operandsOf(x) {
+						if raw(op, depth+1) {
+							return true
+						}
+					}
+				}
+				return false
+			}
+			nIf := 0
+			for b := range loop {
+				iff, ok := b.Instrs[len(b.Instrs)-1].(*ssa.If)
+				if !ok || !instrDominates(rd, iff) {
+					continue
+				}
+				seenRaw = map[ssa.Value]bool{}
+				if !raw(iff.Cond, 0) {
+					continue
+				}
+				nIf++
+				good := true
+				for _, s := range b.Succs {
+					if !loop[s] {
+						continue
+					}
+					if ok2, _ := mustPassUntil(s, rd.Block(), isDecode); !ok2 {
+						good = false
+					}
+				}
+				key := "frame kind decided on the decoded message"
+				if nIf > 1 {
+					key += "#" + strconv.Itoa(nIf)
+				}
+				r.Check(good, "R12b.skip", fnName(fn), key, r.P.pos(iff.Cond.Pos()),
+					"the branch looks at the raw frame, but both sides still run the frame through the decoder before the next read",
+					"a branch on the raw bytes of an upstream frame goes on to the next read without decoding the frame: a data frame whose payload happens to contain the pattern is dropped, and the event never reaches the subscriber")
+			}
+			if nIf == 0 {
+				r.OK("R12b.skip", fnName(fn), "frame kind decided on the decoded message", r.P.pos(rd.Pos()), "no branch of the read loop depends on the raw bytes of the frame (its length and the decoder apart)")
+			}
+		}
+	}
+	r.AtLeast("R12b.skip", "upstream frame reads in a loop", nRead, 1)
+}
+
+// decodes: the call hands its argument to encoding/json (Unmarshal, a Decoder), directly or in
+// a helper of the module.
+func decodes(r *Run, c *ssa.CallCommon, depth int) bool {
+	n := calleeName(c)
+	if strings.HasSuffix(n, "encoding/json.Unmarshal") || strings.HasSuffix(n, "json.Decoder).Decode") || strings.HasSuffix(n, ".UnmarshalJSON") {
+		return true
+	}
+	sc := c.StaticCallee()
+	if sc == nil || !inModule(sc) || sc.Blocks == nil || depth > 3 {
+		return false
+	}
+	for _, i := range allInstrs(sc) {
+		if ci, ok := i.(ssa.CallInstruction); ok && decodes(r, ci.Common(), depth+1) {
+			return true
+		}
+	}
+	return false
 }
 
 // ruleSubscriptionRegistry (R8e): an entry is put into the per-connection subscription
